@@ -136,7 +136,7 @@ func genVT(t *rapid.T, n int, p genProfile) VT {
 func genOp(t *rapid.T, cfg simCfg, p genProfile, depth int) Op {
 	kinds := make([]string, 0, len(p.w))
 	weights := make([]int, 0, len(p.w))
-	for _, k := range []string{"ph", "vote", "round", "replay", "sment", "smact", "stall", "read", "conc", "restart", "time", "fetch"} {
+	for _, k := range []string{"ph", "vote", "round", "replay", "sment", "smact", "stall", "read", "conc", "restart", "time", "fetch", "fbusy"} {
 		if w := p.w[k]; w > 0 && !(depth > 0 && k != "ph" && k != "vote") {
 			kinds = append(kinds, k)
 			weights = append(weights, w)
@@ -258,6 +258,8 @@ func genOp(t *rapid.T, cfg simCfg, p genProfile, depth int) Op {
 		}
 	case "time":
 		op.N = rapid.IntRange(1, 50).Draw(t, "ticks")
+	case "fbusy":
+		op.On = rapid.Bool().Draw(t, "busy")
 	}
 	if p.impatient && (k == "ph" || k == "vote") && rapid.IntRange(0, 5).Draw(t, "impatient") == 0 {
 		op.CA = rapid.IntRange(1, 12).Draw(t, "cancel-at-poll")
@@ -277,6 +279,10 @@ func genCase(t *rapid.T, p genProfile) simCase {
 			{K: "vote", Kind: 1, T: []VT{{T: -1, S: full}}},
 			{K: "fetch", D: 99},
 			{K: "vote", Kind: kind, T: []VT{{T: 50, S: full}}},
+		}
+		if rapid.IntRange(0, 2).Draw(t, "lost-fetcher-busy") == 0 {
+			// the fetcher's queue is full when the block crosses the threshold and is served again later
+			seq = []Op{seq[0], {K: "fbusy", On: true}, seq[1], {K: "fbusy"}, seq[1], seq[2], seq[3], seq[4]}
 		}
 		at := rapid.IntRange(0, len(ops)).Draw(t, "lost-at")
 		ops = append(ops[:at:at], append(seq, ops[at:]...)...)
